@@ -1368,6 +1368,13 @@ bool checkForImportCycles(const History &history, const HistoryEpochPtr &h)
     });
 }
 
+bool checkForRepeatedEntity(const History &history, const HistoryEpochPtr &h)
+{
+    return std::any_of(history.begin(), history.end(), [h](const auto &entry) {
+        return (entry->mSourceModel != nullptr) && (entry->mSourceModel == h->mSourceModel) && (entry->mName == h->mName) && (entry->mType == h->mType);
+    });
+}
+
 std::string formDescriptionOfCyclicDependency(const History &history, const std::string &action)
 {
     auto origin = history.front();
